@@ -487,6 +487,17 @@ def split_rule(ctx, body, paths, al):
                 tbl = char_table(ctx.paths(clo[2]) or [], is_param=lambda t_: strip_refs(t_) == ("param", 2), domain=BYTE_DOMAIN) if isinstance(clo, tuple) and clo[:2] == ("agg", "closure") else None
                 # the predicate is "not a blank": it rejects the space (the exact blank set is D4-BLANKSET's)
                 okp = is_call(it, "[T]>::iter") and strip_refs(call_args(it)[0]) == subjects[1] and bool(tbl) and tbl.get(" ") is False and tbl.get("a") is True and not is_call(P2, "rposition")
+            if not okp and is_call(l1, "Iterator::count") and len(call_args(l1)) == 1:
+                # ... or bytes[sep..][number of leading blanks ..]: rest.iter().take_while(|c| c.is_ascii_whitespace()).count()
+                tw = strip_refs(call_args(l1)[0])
+                if is_call(tw, "Iterator::take_while") and len(call_args(tw)) == 2:
+                    it = strip_refs(call_args(tw)[0])
+                    while isinstance(it, tuple) and it and it[0] in ("loc", "refmut", "ref"):
+                        it = strip_refs(it[2] if it[0] == "loc" and len(it) > 2 else it[1])
+                    clo = strip_refs(call_args(tw)[1])
+                    tbl = char_table(ctx.paths(clo[2]) or [], is_param=lambda t_: strip_refs(t_) == ("param", 2), domain=BYTE_DOMAIN) if isinstance(clo, tuple) and clo[:2] == ("agg", "closure") else None
+                    # the predicate is "a blank": it accepts the space and rejects a letter (the exact blank set is D4-BLANKSET's)
+                    okp = is_call(it, "[T]>::iter") and strip_refs(call_args(it)[0]) == subjects[1] and bool(tbl) and tbl.get(" ") is True and tbl.get("a") is False
             if not okp:
                 bada.append("the argument does not start at the first non-blank byte of the text after the separator")
         else:
